@@ -482,13 +482,13 @@ with run_exit_trap (n : nat) (stk : list frame) (s : state) {struct n} : option 
       match exec_list n (FTrap :: stk) action s with
       | None => None
       | Some (r, s1) =>
-          (* run_trap: an Interrupt carrying a status takes the current
-             status instead and nothing is restored; otherwise the status
-             from before the trap is restored.  Then run_exit_trap applies
-             the result. *)
+          (* run_trap: an Interrupt carrying a status makes that status the
+             exit status; an Interrupt without one leaves the status of the
+             action; otherwise the status from before the trap is restored.
+             Then run_exit_trap applies the result. *)
           let '(r', s2) :=
             match r with
-            | Brk (DInterrupt (Some _)) => (Brk (DInterrupt (Some (status s1))), s1)
+            | Brk (DInterrupt (Some v)) => (r, set_status v s1)
             | Brk (DInterrupt None) => (r, s1)
             | _ => (r, set_status saved s1)
             end in
